@@ -442,7 +442,7 @@ func c09ObserveHandler(app *assembly.HandlerApp, up *assembly.Upstream, c c09Cas
 	return o
 }
 
-func c09ObserveSocket(app *assembly.App, up *assembly.Upstream, c c09Case) c09Obs {
+func c09ObserveSocket(app *assembly.ListeningApp, up *assembly.Upstream, c c09Case) c09Obs {
 	up.Take()
 
 	local, _, _ := net.SplitHostPort(c.Req.Peer)
@@ -962,7 +962,8 @@ func c09SocketStream(t *testing.T, w *vf.Writer, up *assembly.Upstream, rules st
 				mode = assembly.Proxy
 			}
 
-			app, err := assembly.Start(mode, cfg, rules)
+			// heimdall's own http.Server object on a listener the harness holds (no free-port race)
+			app, err := assembly.StartListening(mode, cfg, rules)
 			if err != nil {
 				t.Fatalf("socket stream: %v", err)
 			}
